@@ -7,14 +7,17 @@ use crate::wiretap::{HostCfg, StackCfg, stack};
 
 use serde_json::json;
 
-/// operations that cannot be reached at all on this tree (listed C01 findings); other properties skip them
-pub const KNOWN_UNREACHABLE: &[&str] = &[
-    "ListBucketAnalyticsConfigurations",
-    "ListBucketIntelligentTieringConfigurations",
-    "ListBucketInventoryConfigurations",
-    "ListBucketMetricsConfigurations",
-    "WriteGetObjectResponse",
-];
+/// operations that cannot be reached at all on this tree: exactly those with an *open* C01 finding `not-invoked:<op>`
+/// in known_findings.json; other properties skip them (C01 itself reports them)
+pub struct KnownUnreachable;
+pub const KNOWN_UNREACHABLE: KnownUnreachable = KnownUnreachable;
+
+impl KnownUnreachable {
+    pub fn contains(&self, op: &&str) -> bool {
+        static SET: std::sync::OnceLock<std::collections::HashSet<String>> = std::sync::OnceLock::new();
+        SET.get_or_init(|| crate::engine::load_known("C01").into_iter().filter(|e| e.is_open()).filter_map(|e| e.signature.strip_prefix("not-invoked:").map(str::to_owned)).collect()).contains(*op)
+    }
+}
 
 pub fn gen_cfg(c: &mut Case<'_>) -> StackCfg {
     let host = match c.t.below(4) {
